@@ -99,7 +99,7 @@ def sc_replay_edges(chk, exe, edges, phases, mode='sc', setvia='T'):
     """mode 'sc': a SystemClock (K = keepAlive()); 'scloop': a SystemClockLoop without reference clock (K = loop());
     setvia: how the model's SetNow(v) is performed -- 'T' setNow(v), 'U' setup() with the backup clock reporting v, 'F'
     forceSync() with a reference clock reporting v (all three are documented to set the clock to v)"""
-    vianame = {'T': '', 'U': ':via-setup', 'F': ':via-forceSync'}[setvia]
+    vianame = {'T': '', 'U': ':via-setup', 'F': ':via-forceSync', 'Y': ':via-syncNow'}[setvia]
 
     def opline(op):
         ln = sc_op_line(op)
